@@ -101,5 +101,15 @@ CHECKS["C11"] = dict(
     note=_TB + "; dense positive definite inputs are generated from their Cholesky factor (onto)",
     technique="concolic symbolic execution of the Python source on exact rational-function terms with sqrt generators and exact Cholesky / pivoted-LU "
               "stand-ins; z3 decides residuals, pivot-order flips and sqrt-domain obligations")
-for _p in ["C05","C06","C09","C10","C16","C17","C18","C19"]:
+CHECKS["C06"] = dict(
+    text="inv(A, alg) @ b / @ B, solve, b @ inv(A), inv(A).T @ b and inv(A).to_dense() executed on every structural inverse rule (Diagonal, ScalarMul, "
+         "Identity, Permutation, Triangular, Product of square and non-square factors, Kronecker, BlockDiag with multiplicities, declared Unitary, "
+         "nestings), dense general inputs (pivoted-LU stand-in, pivot orders as solver-explored paths, real / complex / float32), dense Hermitian "
+         "positive definite inputs (Cholesky), the lazy CG / GMRES inverses on Krylov-parametrised inputs, and real operators with complex right-hand "
+         "sides: z3 / exact normal forms prove M x == b and M inv(A).to_dense() == I for all payload values; both sides of the 10^6 Auto switch",
+    note=_TB + "; iterative inverses are run to the full Krylov dimension (exact solve); on the large side of the Auto switch only the selection and the "
+         "forwarding of the options are checked",
+    technique="concolic symbolic execution of the Python source on exact rational-function terms with exact LAPACK stand-ins; z3 decides residuals and "
+              "pivot-order path flips; float replay of every path seed")
+for _p in ["C05","C09","C10","C16","C17","C18","C19"]:
     NA[_p] = "check under construction in this session (not yet registered); see DESIGN.md section 5 for the plan"
